@@ -334,3 +334,22 @@ func crashSite(stderr string) string {
 	}
 	return "worker"
 }
+
+// g4Deadline caps the finite enumerations of engines G3 / G4: they normally finish well inside it; on an overloaded
+// machine the remaining jobs are skipped and the evidence says so (exhaustive:false, cap_hit) instead of running on.
+func g4Deadline(tier string) time.Duration {
+	if tier == "thorough" {
+		return 20 * time.Minute
+	}
+	return 6 * time.Minute
+}
+
+func countSkipped(results []JobResult) int {
+	n := 0
+	for _, r := range results {
+		if r.Skipped {
+			n++
+		}
+	}
+	return n
+}
